@@ -133,6 +133,13 @@ class ChainFamily(Family):
             ctx.violation({"family": self.correspondence,
                            "theorem_or_correspondence": "in-kernel replay disagrees with extracted model",
                            "kernel_bad": kbad[:10]}, False)
+        if ctx.pid in ("C15", "C08"):
+            # stability / uniqueness of revocation identifiers through the API (implementation only)
+            for what in (summ.get("identifier_stability_failures") or [])[:6]:
+                ctx.violation({"family": "direct oracle (implementation only): append, append_third_party and seal (Biscuit and "
+                                         "UnverifiedBiscuit, before and after a round trip) keep the identifiers of the existing "
+                                         "blocks, in order; tokens with identical contents minted concurrently share none",
+                               "violated_clause": what[:600], "theorem_or_correspondence": "direct oracle"}, True)
         for i in bad[:8]:
             v, found, clause = self.describe(i, var)
             orig = var.get((i // 1000) * 1000 + 998)
